@@ -1,3 +1,7 @@
 import Cuke.Model.Wire
 import Cuke.Model.Tag
 import Cuke.Props.C15
+import Cuke.Model.RetryOpts
+import Cuke.Props.C18
+import Cuke.Model.StepMatch
+import Cuke.Props.C17
